@@ -135,6 +135,23 @@ fn raw_universe(run: &mut Run) {
             }
         }
     });
+    // dense boards: every rank is one of six dense patterns (this is where the board field of
+    // the record gets long: up to 71 characters); 6^8 boards x 2 sides. Men are white on ranks
+    // 1-4 and black on ranks 5-8, kings on a1 / a8 when those squares are free or occupied by
+    // the pattern's man, so that a good part of the family is also VALID (<= 16 men a side) and
+    // goes through the position-level round trip as well.
+    run.par_shards("DENSE boards (6 dense patterns per rank, 6^8 boards x 2 sides; valid ones also as positions)", crate::universe::DENSE_SHARDS, |ctx, sh| {
+        let cell = std::cell::RefCell::new(ctx);
+        crate::universe::dense(
+            sh,
+            &mut |r| raw_round_trip(*cell.borrow_mut(), r),
+            &mut |p| {
+                if let Some(board) = board_of(p) {
+                    check_pos(*cell.borrow_mut(), p, &board);
+                }
+            },
+        );
+    });
     // both counters over all 65,536 values each
     run.par_shards("RAW counters (2 x 65,536 values)", 64, |ctx, sh| {
         for i in 0..1024u32 {
